@@ -106,6 +106,25 @@ def build_array(dname, shape, layout, subclass, d):
     np = np_()
     dt = make_dtype(dname)
     n = int(np.prod(shape)) if shape else 1
+    if layout in ("memmap-T", "memmap-negstride", "memmap-colrev", "memmap-strided"):
+        # views of a user's memmap whose memory order / direction differs from the backing file's
+        if dt == np.dtype(object) or n == 0 or len(shape) != 2:
+            return None
+        path = os.path.join(d, "srcv-%s-%s.mm" % (dname.replace("[", "").replace("]", "").replace("<", "l").replace(">", "b"), "x".join(map(str, shape))))
+        if layout == "memmap-T":
+            mm = np.memmap(path, dtype=dt, mode="w+", shape=shape[::-1])
+            mm[:] = fill(dt, n).reshape(shape[::-1])
+            mm.flush()
+            return mm.T
+        if layout == "memmap-strided":
+            mm = np.memmap(path, dtype=dt, mode="w+", shape=(2 * shape[0], shape[1]))
+            mm[:] = fill(dt, 2 * n).reshape((2 * shape[0], shape[1]))
+            mm.flush()
+            return mm[::2]
+        mm = np.memmap(path, dtype=dt, mode="w+", shape=shape)
+        mm[:] = fill(dt, n).reshape(shape)
+        mm.flush()
+        return mm[::-1] if layout == "memmap-negstride" else mm[:, ::-1]
     if layout in ("memmap", "memmap-slice"):
         if dt == np.dtype(object) or n == 0:
             return None
@@ -327,15 +346,21 @@ def worker_scenario(arg):
         if a is None:
             continue
         nbytes = a.nbytes
-        for mx in (nbytes - 1, nbytes, nbytes + 1, None, "1K"):
+        for mx, mm in [(m, "r") for m in (nbytes - 1, nbytes, nbytes + 1, None, "1K")] + [(nbytes - 1, m) for m in ("c", "r+", "w+")]:
             if isinstance(mx, int) and mx <= 0:
                 continue
-            res = joblib.Parallel(n_jobs=2, max_nbytes=mx, backend="loky")(joblib.delayed(describe)(a, i) for i in range(2))
+            # (mmap_mode 'w+' is documented to be coerced to 'r+' so that the data is not zeroed in the worker)
+            try:
+                res = joblib.Parallel(n_jobs=2, max_nbytes=mx, mmap_mode=mm, backend="loky")(joblib.delayed(describe)(a, i) for i in range(2))
+            except Exception as e:  # noqa  (a worker that dies on the array, an un-serialisable argument, ...)
+                out.append({"dtype": dname, "shape": list(shape), "layout": layout, "max_nbytes": mx, "mmap_mode": mm, "ok": False,
+                            "type": "call raised %s: %s" % (type(e).__name__, str(e)[:120]), "expect_memmap": False, "is_memmap": False, "nbytes": nbytes})
+                continue
             for r in res:
                 ok = (r["dtype"] == str(a.dtype) and tuple(r["shape"]) == a.shape and r["bytes"] == content(a))
                 limit = None if mx is None else (1024 if mx == "1K" else mx)
                 expect_mm = limit is not None and nbytes > limit and a.dtype != np.dtype(object)
-                out.append({"dtype": dname, "shape": list(shape), "layout": layout, "max_nbytes": mx, "ok": ok, "type": r["type"],
+                out.append({"dtype": dname, "shape": list(shape), "layout": layout, "max_nbytes": mx, "mmap_mode": mm, "ok": ok, "type": r["type"],
                             "expect_memmap": expect_mm, "is_memmap": r["type"] == "memmap", "nbytes": nbytes})
     return {"records": out, "pids": [os.getpid()]}
 
@@ -399,9 +424,12 @@ def run(ctx):
             ctx.violation(*v)
     # worker memmapping
     arrays = [("<f8", [40], "C"), ("<f8", [8, 5], "F"), ("<i4", [50], "strided"), (">i4", [30], "C"), ("struct-packed", [12], "C"),
-              ("<f8", [30], "memmap-slice"), ("object", [6], "C"), ("U2", [40], "C")]
+              # arrays backed by a memmap of the user: forwarded by file name + offset + strides, never copied
+              ("<f8", [30], "memmap-slice"), ("<f8", [4, 6], "memmap-T"), ("<f8", [4, 6], "memmap-negstride"),
+              ("<i4", [4, 6], "memmap-colrev"), ("<f8", [4, 6], "memmap-strided"),
+              ("object", [6], "C"), ("U2", [40], "C")]
     if quick:
-        arrays = arrays[:5]
+        arrays = arrays[:10]
     res, timed_out, tail = run_session({"arrays": arrays})
     nw = 0
     if res is None or timed_out or "error" in res:
@@ -410,8 +438,10 @@ def run(ctx):
         for r in res["records"]:
             nw += 1
             if not r["ok"]:
-                ctx.violation("worker-memmap|wrong-content|%s" % r["layout"], "array %r passed with max_nbytes=%r arrived different in the worker (%s)" % (
-                    (r["dtype"], r["shape"], r["layout"]), r["max_nbytes"], r["type"]), {"part": "workers", "record": r})
+                ctx.violation("worker-memmap|wrong-content|%s" % r["layout"], "array %r passed with max_nbytes=%r mmap_mode=%r arrived different in the worker (%s)" % (
+                    (r["dtype"], r["shape"], r["layout"]), r["max_nbytes"], r.get("mmap_mode"), r["type"]), {"part": "workers", "record": r})
+            elif r["layout"].startswith("memmap"):
+                pass        # backed by the user's own memmap: forwarded by reference whatever max_nbytes says; only content is judged
             elif r["expect_memmap"] and not r["is_memmap"]:
                 ctx.violation("worker-memmap|not-memmapped", "array of %d bytes with max_nbytes=%r was not memory-mapped in the worker" % (r["nbytes"], r["max_nbytes"]), {"part": "workers", "record": r})
             elif r["is_memmap"] and not r["expect_memmap"] and r["layout"] != "memmap-slice":
